@@ -762,6 +762,9 @@ std::string qsbr_idle_selftest() {
   if (unodb::qsbr_state::get_thread_count(s1) != 1 || !(unodb::qsbr_state::get_epoch(s1) == e0.advance()))
     return "a quiescent state of the only registered thread did not advance the epoch by one (threads-in-previous-epoch count left at " +
            std::to_string(unodb::qsbr_state::get_threads_in_previous_epoch(s0)) + " with " + std::to_string(n0) + " thread registered): the epoch is stuck";
+  // what the library itself asserts when the process ends (assertion-enabled builds: state word invariants, no orphaned
+  // request, no deallocation request object left alive); a failure arrives through the __assert_fail seam as class `assert`
+  q.assert_idle();
   return "";
 }
 
